@@ -16,6 +16,7 @@ WITNESS = {
     "get_from_sorted_mut": "select",
     "get_many_from_sorted_mut": "select_many",
     "remove_nan_mut": "nanview",
+    "argmin": "minmax", "argmax": "minmax", "min": "minmax", "max": "minmax",
     "EquiSpaced::n_bins": "strategies",
     "EquiSpaced::build": "strategies",
     "EquiSpaced::new": "strategies",
@@ -96,7 +97,7 @@ PROPS = {
         "level_note": "bounded: axis lengths <= 2, ranks <= 3; value-independence of the guards is by inspection of the guard expressions (len/shape/q comparisons), not proved; strategies' EmptyInput/Strategy mapping is exercised by enum:strategies (C12)",
         "technique": "exhaustive bounded decision table on the real crate + Verus contract on EquiSpaced::new",
         "design_ref": "DESIGN.md 4 (C17)",
-        "verus": [("equispaced", "N")],
+        "verus": [("equispaced", "N"), ("minmax", "N")],
         "enum": [{"name": "errors"}],
         "assumptions": [A_ENUM, A_VERUS, A_EXTRACT, BOUNDED_NOTE],
         "not_decided": ["shapes with an axis longer than 2 or rank above 3"],
@@ -195,14 +196,15 @@ PROPS.update({
         "rule": "one case per (element type, shape, content, layout); non-trivial = at least 2 elements and at least one missing value",
     },
     "C05": {
-        "level": "exploration",
-        "level_text": "argmin/argmax/min/max iterate with indexed_iter / fold closures over n-D arrays; they are compared on the real crate with the definition: designated element <= (>=) every element, arg-form value == value-form value, EmptyInput exactly for empty arrays, UndefinedOrder exactly when a NaN is present (first / middle / last position)",
-        "level_note": "bounded: f64 over {NaN,-0.0,0.0,-inf,inf,1.5} and i32: every content for arrays of <= 4 elements (sampled above), shapes 0-D..4-D incl. zero-length axes, 5 layouts. A Verus contract over a ghost-iterator model of indexed_iter is the planned stretch (DESIGN.md 4 C05)",
-        "technique": "bounded exhaustive enumeration on the real crate (stand-in; Verus contract on the iterator loop not finished)",
-        "design_ref": "DESIGN.md 4 (C05)",
+        "level": "proof",
+        "level_text": "Verus discharges on the extracted bodies of argmin, argmax, min and max (src/quantile/mod.rs), for arrays of every dimensionality, shape and layout (n-D logical interface A-ND) and every element type whose partial order is float-like (incomparable exactly when a NaN is involved, lawful otherwise - proved non-vacuous for i32/u64): an empty array gives EmptyInput; a NaN anywhere (first, middle, last: the first element is compared with itself) gives UndefinedOrder; otherwise the arg form returns the logical index of an element that is <= (>=) every element and the value form returns a reference to such an element. argmin/argmax: loop invariants over the indexed_iter loop; min/max: the fold closure is annotated with its step relation (checked against the closure body) and an induction lemma over the fold trace, valid for any visiting order. The enumeration on the real crate doubles as witness search",
+        "level_note": "trusted: A-ND n-D (first(), ndim(), D::zeros(n).into_pattern() is the index of the first logical element, indexed_iter yields each (index, element) once in logical order - modelled as a Vec of pairs so that Verus' Vec iteration applies -, fold applies the closure to each element exactly once in an unspecified order), core::cmp::Ordering's derived == is structural, the conversion EmptyInput -> MinMaxError::EmptyInput of errors.rs is modelled by a constant (Verus does not connect `?` with user From impls; the mapping is exercised by enum:minmax/errors); f32/f64 satisfy float_like_laws (IEEE-754 comparison) is assumed, not proved. bounded: enum:minmax - f64 over {NaN,-0.0,0.0,-inf,inf,1.5} and i32, every content for <= 4 elements, shapes 0-D..4-D incl. zero-length axes, 5 layouts",
+        "technique": "Verus loop invariants (argmin/argmax) and closure contract + induction over the fold trace (min/max) on the extracted bodies",
+        "design_ref": "DESIGN.md 4 (C05), 8a",
+        "verus": [("minmax", "N")],
         "enum": [{"name": "minmax"}],
-        "assumptions": [A_ENUM, BOUNDED_NOTE],
-        "not_decided": ["arrays with more than 4 elements beyond the sampled ones"],
+        "assumptions": [A_VERUS, A_EXTRACT, A_ENUM, "A-ND (n-D): ndarray's first/ndim/indexed_iter/fold/Dimension::zeros honour the logical contract stated in shim/ndarr.rs for every layout and ownership", "IEEE-754 comparison on f32/f64 satisfies float_like_laws (assumed)"],
+        "not_decided": [],
         "rule": "one case per (element type, shape, content, layout); non-trivial = at least 2 elements",
     },
     "C06": {
@@ -245,7 +247,7 @@ PROPS.update({
         "level_note": "bounded: enum:layouts - random integer-valued data, shapes 1-D..4-D (<= 16 elements), F-order / stepped-in-parent / reversed axes / embedded at an offset, owned/view/shared/copy-on-write, static vs dynamic dimension; enum:nanview. Float sums under different summation orders: only exactly-representable data",
         "technique": "layout-free trusted interface in the Verus shim + bounded pairwise enumeration on the real crate",
         "design_ref": "DESIGN.md 4 (C20)",
-        "verus": [("nan", "N")],
+        "verus": [("nan", "N"), ("minmax", "N"), ("bins", "N")],
         "enum": [{"name": "layouts"}, {"name": "nanview", "abort_props": ["C04"]}],
         "assumptions": [A_ND, A_VERUS, A_EXTRACT, A_ENUM, BOUNDED_NOTE],
         "not_decided": ["floating-point sums whose value depends on summation order (roundoff bound)"],
